@@ -359,7 +359,7 @@ impl E2Run for Dhcp {
     fn budget(&self, tier: &Tier) -> (u64, u64) {
         match tier {
             Tier::Quick => (150_000, 50),
-            Tier::Thorough => (10_000_000, 3000),
+            Tier::Thorough => (10_000_000, 1200),
         }
     }
 
@@ -728,7 +728,7 @@ impl Scenario for Gen {
     fn budget(&self, tier: &Tier) -> (u64, u64) {
         match tier {
             Tier::Quick => (1_000_000, 30),
-            Tier::Thorough => (100_000_000, 1200),
+            Tier::Thorough => (100_000_000, 600),
         }
     }
 
